@@ -28,7 +28,11 @@ DESIGN_REF = "DESIGN.md §1 C10"
 RULE = (
     "(a) one case = (program, argument specs) with at least one list / lazy-list argument, program = table key or "
     "modifier applied to table keys; (b) one case = (value spec, how it enters: preloaded or list literal, copy-op, "
-    "up to three elements each optionally preceded by literal operands). Only normally completed executions are "
+    "up to three elements each optionally preceded by literal operands); (a2) every key of arity 1..3 on 14 degenerate "
+    "list shapes ([], [[]], [[], 1], [\"\", 0], lazy [] ...) in each argument position against 5-7 typical values in the "
+    "others; (b2) the value is made by the program itself (15 producers: endless, infinite-flagged, lazily mapped / "
+    "filtered / zipped lists), then copy-op and element, and every holder must read (first 10 items, 3 levels) what "
+    "the producer's result reads when run alone. Only normally completed executions are "
     "evaluated. distinct_nontrivial = distinct (program, argument-shape tuple) pairs for (a) and distinct "
     "(copy-op, element sequence, value shape) triples for (b) in which at least one kept list value was compared."
 )
@@ -45,6 +49,8 @@ MIN_COUNTERS = {
     "lazy_arguments_compared": {"quick": 700, "thorough": 2500},
     "holders_compared": {"quick": 3000, "thorough": 15000},
     "frame_arguments_guarded": {"quick": 30000, "thorough": 150000},
+    "degenerate_shape_cases_compared": {"quick": 5000, "thorough": 5000},
+    "produced_holders_compared": {"quick": 2000, "thorough": 8000},
 }
 MAX_INCONCLUSIVE_ABS = 5
 UNIT_TIMEOUT = 900
@@ -106,6 +112,13 @@ def units(tier, seed):
         u.append({"kind": "copykey", "keys": ck[i:i + step], "n": COPY_VALUES[tier], "seed": seed})
     for j in range(RAND_UNITS[tier]):
         u.append({"kind": "copyrand", "idx": j, "n": RAND_PER_UNIT[tier], "seed": seed})
+    # every key on degenerate list shapes in each argument position (small-shape exhaustive)
+    sk = [k for k in keys if 1 <= E.elements[k][1] <= 3 and k not in NEVER]
+    for i in range(0, len(sk), 8):
+        u.append({"kind": "shapes", "keys": sk[i:i + 8]})
+    # values made by the program itself (infinite, flagged, lazily mapped lists) under every copy-op
+    for i in range(0, len(ck), 24):
+        u.append({"kind": "produced", "keys": ck[i:i + 24], "seed": seed, "n": 1 if tier == "quick" else 4})
     # M-FRAME ride-along on whatever lists real structure programs produce (C01's workload)
     for j in range(16 if tier == "quick" else 240):
         u.append({"kind": "ride", "idx": j, "n": 60, "seed": seed})
@@ -589,6 +602,146 @@ def run_case_b(vspec, mode, copy_idx, groups, res, shrink=True):
     return "completed"
 
 
+# ------------------------------------------------------------- produced values
+DEGENERATE = [[], [[]], [[], 0], [[], 1], [0, []], [[0], 1], [[], []], [""], ["", 0], [0], [1, 2], [2, [], 1],
+              {"lazy": []}, {"lazy": [[], 1]}]
+TYPICAL = [[1, 2, 3], [[1, 2], [3, 4]], {"lazy": [1, 2, 3]}, 2, "abc", 0, {"fn": "λ1|d;"}]
+TYPICAL3 = [[1, 2, 3], [[1, 2], [3, 4]], {"lazy": [1, 2, 3]}, 2, "abc"]
+PRODUCERS = ["Þp", "ÞF", "Þ!", "Þ∞", "Þp9Ẏ", "5ɾ", "5ɾƛd;", "Þ∞'2%;", "⟨3|1|2⟩ƛ›;", "9ʀṘ", "λ+;⟨1|1⟩Ḟ", "Þ∞ƛ3%;",
+             "⟨⟨1|2⟩|⟨3⟩⟩ƛ;", "Þp:Z", "6ɾ2ẇ"]
+ENDLESS = {"Þp", "ÞF", "Þ!", "Þ∞", "Þ∞'2%;", "λ+;⟨1|1⟩Ḟ", "Þ∞ƛ3%;", "Þp:Z"}
+_PCONTROL = {}
+
+
+def _bview(v, width=10, depth=3):
+    import itertools
+
+    t = type(v)
+    if t is list or t.__name__ == "LazyList":
+        if depth <= 0:
+            return "..."
+        return [_bview(x, width, depth - 1) for x in itertools.islice(iter(v), width)]
+    if callable(v):
+        return "function"
+    return repr(v)
+
+
+def _pcontrol(producer):
+    from lib.gen import elemcases as ec
+    from lib.worker import watchdog
+
+    if producer not in _PCONTROL:
+        out = None
+        run = ec.execute([producer], [], ctx=ec.fresh_ctx(global_array=()))
+        if run.completed and type(run.stack) is list and run.stack:
+            try:
+                with watchdog(3.0):
+                    out = _bview(run.stack[-1])
+            except BaseException:  # noqa
+                out = None
+        _PCONTROL[producer] = out
+    return _PCONTROL[producer]
+
+
+def run_case_p(producer, copy_idx, groups, res):
+    """<producer> <copy-op> <element sequence>: every holder of the produced value must afterwards read
+    (first 10 items, 3 levels) what the producer's result reads when the producer runs alone."""
+    from lib.gen import elemcases as ec
+    from lib.harness import short_hash
+    from lib.worker import Watchdog, watchdog
+
+    control = _pcontrol(producer)
+    if control is None:
+        _skip(res, "producer_control_failed")
+        return "nocontrol"
+    copy_text, wanted = COPY_OPS[copy_idx]
+    if groups and not _seg2_ok(groups):
+        _skip(res, "generator_selfcheck")
+        return "selfcheck"
+    holders = []
+
+    def between(i, run):
+        if i != 0:
+            return
+        seen = set()
+
+        def add(label, obj, wrapped=False):
+            if (type(obj) is list or type(obj).__name__ == "LazyList") and id(obj) not in seen:
+                seen.add(id(obj))
+                holders.append((label, obj, wrapped))
+
+        st = run.ns.get("stack")
+        if type(st) is list:
+            if "stack" in wanted:
+                for j, x in enumerate(st):
+                    add(f"stack entry {j} after {copy_text!r}", x)
+            elif "stack0" in wanted and st:
+                add(f"stack entry 0 after {copy_text!r}", st[0])
+            elif "wrapped0" in wanted and st:
+                add(f"stack entry 0 after {copy_text!r}", st[0], True)
+        ctx = run.ctx
+        if "register" in wanted:
+            add("the register", getattr(ctx, "register", None))
+        if "global_array" in wanted:
+            ga = getattr(ctx, "global_array", None)
+            if type(ga) is list:
+                for j, x in enumerate(ga):
+                    add(f"global array item {j}", x)
+        if "var_x" in wanted:
+            add("variable x", run.ns.get("VAR_x"))
+
+    run = ec.execute([producer + copy_text, _seg2_text(groups) if groups else " "], [],
+                     ctx=ec.fresh_ctx(global_array=()), between=between, seconds=1.0)
+    if not run.completed:
+        _skip(res, run.why)
+        return run.why
+    if not holders:
+        _skip(res, "no_holder")
+        return "completed"
+    keep = {id(h[1]) for h in holders}
+    if not _read_results(run.stack, keep):
+        _skip(res, "watchdog_reading_results")
+        return "completed"
+    bad = None
+    try:
+        with watchdog(3.0):
+            for label, obj, wrapped in holders:
+                try:
+                    now = _bview(obj)
+                except Watchdog:
+                    raise
+                except (MemoryError, RecursionError, SystemExit):
+                    _restore_stdin()
+                    _skip(res, "holder_not_readable")
+                    return "completed"
+                except Exception as e:  # noqa
+                    now = f"reading raised {type(e).__name__}"
+                exp = [control] if wrapped else control
+                if now != exp:
+                    bad = (label, exp, now)
+                    break
+    except Watchdog:
+        _skip(res, "watchdog_comparing")
+        return "completed"
+    res["evals"] += 1
+    _count(res, "produced_holders_compared", len(holders))
+    ekeys = [g[-1] for g in groups]
+    res["keys"].append(short_hash([producer, copy_text, ekeys]))
+    if bad:
+        label, exp, now = bad
+        subject = " ".join(ekeys) if ekeys else copy_text
+        if len(res["violations"]) < 20:
+            res["violations"].append({
+                "mechanism": "produced-value-changed", "subject": subject, "how": "reads-differently", "part": "b",
+                "what": f"program {producer + copy_text + _seg2_text(groups)!r}: {label} now reads {now!r}; the result of "
+                        f"{producer!r} alone reads {exp!r}",
+                "unit": {"kind": "case_p", "producer": producer, "copy": copy_idx, "groups": groups},
+            })
+        else:
+            _count(res, "violations_not_listed")
+    return "completed"
+
+
 # ------------------------------------------------------------------ units
 
 
@@ -737,6 +890,45 @@ def run_unit(unit):
                 _count(res, "copy_keys_compared")
             else:
                 _count(res, "copy_keys_never_compared")
+    elif kind == "case_p":
+        run_case_p(unit["producer"], unit["copy"], unit["groups"], res)
+    elif kind == "shapes":
+        import itertools
+
+        table = ec.element_table()
+        for key in unit["keys"]:
+            arity = int(table[key][1])
+            typ = TYPICAL if arity < 3 else TYPICAL3
+            dogs = 0
+            for pos in range(arity):
+                for deg in DEGENERATE:
+                    for rest in itertools.product(typ, repeat=arity - 1):
+                        if dogs >= 6:
+                            break
+                        specs = list(rest[:pos]) + [deg] + list(rest[pos:])
+                        before = res["evals"]
+                        why = run_case_a(key, specs, res)
+                        if why in ("watchdog", "memory"):
+                            dogs += 1
+                        if res["evals"] > before:
+                            _count(res, "degenerate_shape_cases_compared")
+    elif kind == "produced":
+        table = ec.element_table()
+        for key in unit["keys"]:
+            arity = max(0, int(table[key][1]))
+            r = ec.rng_for("C10prod", unit["seed"], key)
+            dogs = 0
+            for producer in PRODUCERS:
+                for _ in range(unit["n"]):
+                    if dogs >= 1 and producer in ENDLESS:
+                        break  # an element that does not return on one endless list will not on the next
+                    if dogs >= 4:
+                        break
+                    ci = r.randrange(len(COPY_OPS))
+                    group = _gen_group(r, key, arity, fill_p=1.0)
+                    why = run_case_p(producer, ci, [group], res)
+                    if why in ("watchdog", "memory"):
+                        dogs += 1
     elif kind == "ride":
         run_ride(unit, res)
     elif kind == "copyrand":
